@@ -25,8 +25,11 @@ Template directives (all start with `//@@`; payloads in <<< >>> may span lines):
   //@@ POST <<<text>>>                   insert at the end of the body (before `}`)
   //@@ R7 <writer-ident>                 rule R7, mechanical: every write!(W, FMT, ..)? / W.write_all(..)? becomes
                                          emit_last / emit_byte of the LAST byte written; dead lets are dropped
+  //@@ R10 <writer-ident>                rule R10, mechanical: every write!/writeln!(W, FMT, ..) / W.write_all(b"..") becomes the
+                                         sequence of typed emissions it performs (see r10_edits)
   //@@ CUT <<<start>>> <<<end>>>          drop the source text from `start` up to (not including) `end`;
                                          the number of dropped lines is reported in the evidence
+  //@@ BEFOREEACH <<<anchor>>> <<<text>>>  insert ghost text before EVERY occurrence of anchor (none is fine)
   //@@ CUTBLOCK <<<anchor>>> <<<text>>>   the contents of the first `{ .. }` block after `anchor` (brace-matched)
                                          are replaced by `text`; dropped lines are reported in the evidence
   //@@ FORWHILE n                        rule R9: the n-th loop, `for x in a..b { B }`, is desugared to
@@ -111,6 +114,196 @@ def _split_top(s):
     if cur.strip():
         out.append(cur)
     return [x.strip() for x in out]
+
+
+
+def _unescape_rust(lit):
+    """contents of a Rust "..." literal -> text"""
+    out, i = '', 0
+    while i < len(lit):
+        c = lit[i]
+        if c == '\\' and i + 1 < len(lit):
+            n = lit[i + 1]
+            if n == 'n':
+                out += '\n'
+            elif n == 't':
+                out += '\t'
+            elif n == 'r':
+                out += '\r'
+            elif n in '"\\\'':
+                out += n
+            elif n == '0':
+                out += '\0'
+            elif n == '\n':
+                i += 2
+                while i < len(lit) and lit[i] in ' \t\n':
+                    i += 1
+                continue
+            else:
+                raise LostAnchor(f'R10: unsupported escape \\{n}')
+            i += 2
+        else:
+            out += c
+            i += 1
+    return out
+
+
+def _fmt_pieces(fmt):
+    """format text -> [('lit', text) | ('arg', name|None)]"""
+    out, cur, i = [], '', 0
+    while i < len(fmt):
+        c = fmt[i]
+        if c == '{':
+            if fmt[i + 1:i + 2] == '{':
+                cur += '{'
+                i += 2
+                continue
+            j = fmt.find('}', i)
+            if j < 0:
+                raise LostAnchor('R10: unbalanced { in format')
+            inner = fmt[i + 1:j]
+            name = inner.split(':', 1)[0].strip() or None
+            if cur:
+                out.append(('lit', cur))
+                cur = ''
+            out.append(('arg', name))
+            i = j + 1
+        elif c == '}':
+            if fmt[i + 1:i + 2] == '}':
+                cur += '}'
+                i += 2
+                continue
+            raise LostAnchor('R10: stray } in format')
+        else:
+            cur += c
+            i += 1
+    if cur:
+        out.append(('lit', cur))
+    return out
+
+
+def _lit_tokens(text):
+    """literal text -> typed emission tokens (purely lexical classification)"""
+    toks = []
+    segs = text.split('\n')
+    for k, seg in enumerate(segs):
+        if k > 0:
+            toks.append(('nl',))
+        if not seg:
+            continue
+        if re.fullmatch(r' *: *', seg):     # KeyValue::parse splits at the first `:` and trims both sides
+            toks.append(('sep',))
+        elif seg == ',':
+            toks.append(('comma',))
+        elif re.fullmatch(r'\[\w+\]', seg):
+            toks.append(('header', seg))
+        elif seg == 'osu file format v':
+            toks.append(('version',))
+        elif re.fullmatch(r'\w+ *: *', seg):
+            toks.append(('keytext', re.match(r'\w+', seg).group(0)))
+            toks.append(('sep',))
+        else:
+            raise LostAnchor(f'R10: literal text {seg!r} is outside the key/value line grammar this rule knows')
+    return toks
+
+
+def r10_edits(body, msk, writer, log, cuts=(), wexpr=None):
+    """R10, mechanical (key: value sections): every `write!` / `writeln!(W, "FMT", args..)` and
+    `W.write_all(b"..")` becomes the sequence of TYPED emissions it performs, in order:
+      literal `[Name]` -> emit_header(W, "[Name]")    literal newline -> emit_nl(W)
+      literal `:` (spaces around it allowed) -> emit_sep(W)                  literal `,`     -> emit_comma(W)
+      literal `Word: ` -> emit_key_text(W, "Word"); emit_sep(W)     literal `osu file format v` -> emit_version_prefix(W)
+      placeholder      -> emit_arg(W, <the argument expression>)   (`E as i32` -> as_i32(E))
+    The rendered text of an argument is abstracted to the class of its Rust type."""
+    from extract import match_close
+    edits = []
+    wx = wexpr or writer   # how the writer is passed on (`&mut writer` where the code holds it by value)
+
+    def render(tokens, q_last):
+        calls = []
+        for t in tokens:
+            if t[0] == 'nl':
+                calls.append(f'emit_nl({wx})')
+            elif t[0] == 'sep':
+                calls.append(f'emit_sep({wx})')
+            elif t[0] == 'comma':
+                calls.append(f'emit_comma({wx})')
+            elif t[0] == 'header':
+                calls.append(f'emit_header({wx}, "{t[1]}")')
+            elif t[0] == 'version':
+                calls.append(f'emit_version_prefix({wx})')
+            elif t[0] == 'keytext':
+                calls.append(f'emit_key_text({wx}, "{t[1]}")')
+            elif t[0] == 'arg':
+                e = t[1]
+                cm = re.fullmatch(r'(.+?)\s+as\s+i32', e, flags=re.S)
+                if cm:
+                    e = f'as_i32({cm.group(1).strip()})'
+                calls.append(f'emit_arg({wx}, &({e}))')   # format macros take their arguments by reference
+        if not calls:
+            raise LostAnchor('R10: write without output')
+        return '({ ' + ' '.join(c + '?;' for c in calls[:-1]) + ' ' + calls[-1] + ('?' if q_last else '') + ' })'
+
+    def in_cut(pos):
+        return any(a <= pos < b for a, b in cuts)
+
+    for m in re.finditer(r'\b(write|writeln)!\s*\(', msk):
+        if in_cut(m.start()):
+            continue
+        o = m.end() - 1
+        c = match_close(msk, o)
+        parts = _split_top(body[o + 1:c])
+        if len(parts) < 2 or parts[0] != writer:
+            continue
+        fm = re.fullmatch(r'"((?:[^"\\]|\\.)*)"', parts[1].strip(), flags=re.S)
+        if not fm:
+            raise LostAnchor('R10: format is not a string literal')
+        fmt = _unescape_rust(fm.group(1))
+        if m.group(1) == 'writeln':
+            fmt += '\n'
+        named, positional = {}, []
+        for a in parts[2:]:
+            am = re.match(r'^([A-Za-z_]\w*)\s*=(?!=)\s*(.*)$', a, flags=re.S)
+            if am:
+                named[am.group(1)] = am.group(2).strip()
+            else:
+                positional.append(a)
+        toks, npos = [], 0
+        for pc in _fmt_pieces(fmt):
+            if pc[0] == 'lit':
+                toks.extend(_lit_tokens(pc[1]))
+            else:
+                if pc[1] is None:
+                    if npos >= len(positional):
+                        raise LostAnchor('R10: positional placeholder without argument')
+                    toks.append(('arg', positional[npos]))
+                    npos += 1
+                elif pc[1].isdigit():
+                    toks.append(('arg', positional[int(pc[1])]))
+                else:
+                    toks.append(('arg', named.get(pc[1], pc[1])))
+        end = c + 1
+        tail = re.match(r'\s*\?', body[end:])
+        if tail:
+            end += tail.end()
+        edits.append((m.start(), end, render(toks, bool(tail))))
+        log['R10 write! -> typed emissions'] = log.get('R10 write! -> typed emissions', 0) + 1
+    for m in re.finditer(r'\b' + re.escape(writer) + r'\s*\.\s*write_all\s*\(', msk):
+        if in_cut(m.start()):
+            continue
+        o = m.end() - 1
+        c = match_close(msk, o)
+        arg = body[o + 1:c].strip()
+        bm = re.fullmatch(r'b"((?:[^"\\]|\\.)+)"', arg)
+        if not bm:
+            raise LostAnchor(f'R10: unsupported write_all argument {arg[:40]!r}')
+        end = c + 1
+        tail = re.match(r'\s*\?', body[end:])
+        if tail:
+            end += tail.end()
+        edits.append((m.start(), end, render(_lit_tokens(_unescape_rust(bm.group(1))), bool(tail))))
+        log['R10 write_all -> typed emissions'] = log.get('R10 write_all -> typed emissions', 0) + 1
+    return edits
 
 
 def r7_edits(body, msk, writer, log, cuts=()):
@@ -219,6 +412,24 @@ def drop_dead_lets(body, log):
     return body
 
 
+def _cut_regions(body, msk, dirs):
+    """source ranges removed by CUT / CUTBLOCK directives (write! calls inside them are not rewritten)"""
+    from extract import match_close
+    cuts = []
+    for d2 in dirs:
+        if d2[0] == 'CUT':
+            a2 = body.find(d2[1])
+            b2 = body.find(d2[2], a2 + len(d2[1])) if a2 >= 0 else -1
+            if a2 >= 0 and b2 >= 0:
+                cuts.append((a2, b2))
+        elif d2[0] == 'CUTBLOCK':
+            a2 = body.find(d2[1])
+            o2 = msk.find('{', a2 + len(d2[1])) if a2 >= 0 else -1
+            if o2 >= 0:
+                cuts.append((o2 + 1, match_close(msk, o2)))
+    return cuts
+
+
 def transform_body(body, dirs, log):
     edits = []  # (start, end, replacement)
     msk = mask(body)
@@ -261,6 +472,11 @@ def transform_body(body, dirs, log):
             p = pos[n] if kind == 'BEFORE' else pos[n] + len(anchor)
             edits.append((p, p, text))
             log['R5 proof insert'] = log.get('R5 proof insert', 0) + 1
+        elif kind == 'BEFOREEACH':
+            anchor, text = d[1], d[2]
+            for m2 in re.finditer(re.escape(anchor), body):
+                edits.append((m2.start(), m2.start(), text))
+                log['R5 proof insert'] = log.get('R5 proof insert', 0) + 1
         elif kind == 'CUT':
             start, end = d[1], d[2]
             a = body.find(start)
@@ -305,6 +521,8 @@ def transform_body(body, dirs, log):
                     if a2 >= 0 and b2 >= 0:
                         cuts.append((a2, b2))
             edits.extend(r7_edits(body, msk, d[1], log, cuts))
+        elif kind == 'R10':
+            edits.extend(r10_edits(body, msk, d[1], log, _cut_regions(body, msk, dirs), d[2]))
         elif kind == 'PRE':
             edits.append((0, 0, d[1] + '\n'))
             log['R5 proof insert'] = log.get('R5 proof insert', 0) + 1
@@ -316,7 +534,7 @@ def transform_body(body, dirs, log):
             for m in re.finditer(r'\bself\b', msk):
                 edits.append((m.start(), m.end(), ident))
             log['R2 self rename'] = log.get('R2 self rename', 0) + 1
-    edits.sort(key=lambda e: (e[0], -e[1]))
+    edits.sort(key=lambda e: (e[0], 0 if e[0] == e[1] else 1, -e[1]))   # zero-width inserts before replacements starting at the same offset
     # overlap check; a SELF edit inside another edit's range is dropped only if
     # the enclosing edit is a CLOSURE (its expr is re-emitted verbatim) -> handle
     # by applying SELF to the replacement text instead
@@ -460,10 +678,14 @@ def assemble(template_path, repo):
                         dirs.append(('CUT', p[0], p[1]))
                     elif kind == 'CUTBLOCK':
                         dirs.append(('CUTBLOCK', p[0], p[1]))
+                    elif kind == 'BEFOREEACH':
+                        dirs.append(('BEFOREEACH', p[0], p[1]))
                     elif kind == 'FORWHILE':
                         dirs.append(('FORWHILE', int(toks[2])))
                     elif kind == 'R7':
                         dirs.append(('R7', toks[2]))
+                    elif kind == 'R10':
+                        dirs.append(('R10', toks[2], ' '.join(toks[3:]) or None))
                     else:
                         raise LostAnchor(f'unknown directive {kind}')
                     continue
